@@ -159,6 +159,9 @@ func c18HelperJob(raw json.RawMessage) (any, error) {
 			return
 		}
 		w := hv.NewWriter()
+		if len(path)%2 == 0 {
+			w.Header().Set("Content-Type", "text/html; charset=utf-8") // what an outer middleware may have set as a default
+		}
 		pv, bad := Guard(func() { mux.Trace(w, mkTraceReq(method, path, hval, body, unknownLen), withBody) })
 		w.Finish()
 		out.Evals++
@@ -180,8 +183,8 @@ func c18HelperJob(raw json.RawMessage) (any, error) {
 		if w.Status != 200 {
 			rep("status", fmt.Sprintf("%d", w.Status), "200")
 		}
-		if ct := w.SentH.Get("Content-Type"); ct != "message/http" {
-			rep("content-type-after-status", fmt.Sprintf("Content-Type as sent: %q (live map afterwards: %q)", ct, w.H.Get("Content-Type")), "message/http sent with the response")
+		if ct := w.SentH.Values("Content-Type"); len(ct) != 1 || ct[0] != "message/http" {
+			rep("content-type-after-status", fmt.Sprintf("Content-Type as sent: %q (live map afterwards: %q)", ct, w.H.Values("Content-Type")), "exactly one Content-Type: message/http, sent with the response")
 		}
 		if string(w.Body) != want {
 			class := "body-not-escaped-dump"
